@@ -16,7 +16,7 @@ fn main() {
             println!("cargo:rustc-cfg=bfsweep_src_override");
             PathBuf::from(p)
         }
-        _ => manifest.join("../../../repo/bindgen/codegen/bitfield_unit.rs"),
+        _ => std::path::PathBuf::from("/repo/bindgen/codegen/bitfield_unit.rs"),
     };
     println!("cargo:rerun-if-changed={}", src.display());
     println!("cargo:rerun-if-env-changed=BFSWEEP_CONST_SET");
